@@ -320,7 +320,111 @@ func (c *checker) reportTiming(ph phase, seed uint64, class, msg string) {
 	c.violation, c.violClass = path, class
 }
 
+// digestBlockOf: block bounds of a replay object of the digest phases (C07 oracle 2).
+func digestBlockOf(raw json.RawMessage) (lo, hi uint64, ok bool) {
+	doc, err := decodeGeneric(raw)
+	if err != nil {
+		return 0, 0, false
+	}
+	a, okA := doc["block_lo"].(json.Number)
+	b, okB := doc["block_hi"].(json.Number)
+	if !okA || !okB {
+		return 0, 0, false
+	}
+	lo, _ = strconv.ParseUint(a.String(), 10, 64)
+	hi, _ = strconv.ParseUint(b.String(), 10, 64)
+	return lo, hi, hi > lo
+}
+
+var blockCounter int
+
+// evalDigestBlock runs the two processes of the digest phases over one block of seeds on
+// the tree being looked at: the instrumented build writes reference digests (sorted map
+// order, block walked upwards), the un-instrumented build compares (Go's own map order,
+// block walked downwards, second id list first). Returns the violation record if the
+// comparison fails.
+func (rc *runCtx) evalDigestBlock(pl plan, tier string, lo, hi uint64) (json.RawMessage, uint64) {
+	refPh, ok1 := pl.phase("reference-digests", tier)
+	cmpPh, ok2 := pl.phase("process-repetition", tier)
+	if !ok1 || !ok2 {
+		return nil, 0
+	}
+	blockCounter++
+	dir := fmt.Sprintf("%s/refdigests-block-%d", rc.scratch, blockCounter)
+	os.MkdirAll(dir, 0o755)
+	defer os.RemoveAll(dir)
+	mk := func(ph phase) Job {
+		extra := map[string]string{"ref_dir": dir}
+		for k, v := range ph.Extra {
+			extra[k] = v
+		}
+		extra["ref_dir"] = dir
+		return Job{Engine: ph.Engine, Property: rc.prop, Mix: ph.Mix, Mode: ph.Mode, Tier: tier, SeedLo: lo, SeedHi: hi, Extra: extra}
+	}
+	o1 := rc.runJob(refPh, mk(refPh), 30*time.Minute, 0)
+	if o1.Violation != nil {
+		return o1.Violation, o1.ViolSeed
+	}
+	if o1.Summary == nil {
+		return nil, 0
+	}
+	o2 := rc.runJob(cmpPh, mk(cmpPh), 30*time.Minute, 0)
+	if o2.Violation != nil {
+		return o2.Violation, o2.ViolSeed
+	}
+	return nil, 0
+}
+
+// reportDigestBlock: a difference between the two processes of the digest phases. First the
+// plain in-process repetition (64 calls) is tried; then the two processes are run again over
+// ever larger parts of the block, and the smallest part that shows a difference again is the
+// replay file.
+func (c *checker) reportDigestBlock(ph phase, raw json.RawMessage, class string, seed, lo, hi uint64) {
+	finish := func(doc map[string]interface{}, note string) {
+		doc["replay_phase"], doc["property"], doc["note"] = ph.Name, c.prop, note
+		path, err := writeReplay(c.prop, encodeGeneric(doc), fmt.Sprintf("%s-seed%d", sanitize(class), seed))
+		if err != nil {
+			die2("cannot write replay: %v", err)
+		}
+		msg := ""
+		if v, ok := doc["violation"].(map[string]interface{}); ok {
+			msg, _ = v["message"].(string)
+		}
+		fmt.Printf("violation class: %s\n%s\n%s\n", class, msg, note)
+		fmt.Printf("VIOLATION property=%s replay=%s\n", c.prop, path)
+		c.violation, c.violClass = path, class
+	}
+	doc, _ := decodeGeneric(raw)
+	single, _ := decodeGeneric(raw)
+	delete(single, "block_lo")
+	delete(single, "block_hi")
+	if c.rc.evalCandidatesRepeated(ph, encodeGeneric(single), class) {
+		finish(single, "repeating the call in one process shows the difference")
+		return
+	}
+	blocks := [][2]uint64{{seed, seed + 1}, {seed, hi}, {lo, seed + 1}, {lo, hi}}
+	for attempt := 0; attempt < 2; attempt++ {
+		for _, b := range blocks {
+			if v, s := c.rc.evalDigestBlock(c.plan, c.tier, b[0], b[1]); v != nil {
+				d2, err := decodeGeneric(v)
+				if err != nil {
+					continue
+				}
+				d2["block_lo"], d2["block_hi"] = json.Number(strconv.FormatUint(b[0], 10)), json.Number(strconv.FormatUint(b[1], 10))
+				finish(d2, fmt.Sprintf("the two processes of the digest phases differ again over the seeds %d..%d (first difference at seed %d); the replay runs both processes over that block", b[0], b[1]-1, s))
+				return
+			}
+		}
+	}
+	die2("violation %s at seed %d (digest phases) did not show again when both processes were repeated over its block; refusing to report", class, seed)
+	_ = doc
+}
+
 func (c *checker) report(ph phase, raw json.RawMessage, class string, seed uint64) {
+	if lo, hi, ok := digestBlockOf(raw); ok {
+		c.reportDigestBlock(ph, raw, class, seed, lo, hi)
+		return
+	}
 	budget := 60 * time.Second
 	if c.tier == "thorough" {
 		budget = 240 * time.Second
@@ -650,7 +754,12 @@ func runReplay(path string) int {
 		fmt.Println("replay: the repository's tests pass under map order " + pol)
 		return 0
 	}
-	info, err := ensureBuild([]string{ph.Build})
+	blo, bhi, isBlock := digestBlockOf(raw)
+	builds := []string{ph.Build}
+	if isBlock {
+		builds = plan.builds(tier)
+	}
+	info, err := ensureBuild(builds)
 	if err != nil {
 		die2("%v", err)
 	}
@@ -659,6 +768,22 @@ func runReplay(path string) int {
 		die2("%v", err)
 	}
 	defer rc.cleanup()
+	if isBlock {
+		for attempt := 1; attempt <= 3; attempt++ {
+			if v, s := rc.evalDigestBlock(plan, tier, blo, bhi); v != nil {
+				d2, _ := decodeGeneric(v)
+				msg := ""
+				if vv, ok := d2["violation"].(map[string]interface{}); ok {
+					msg, _ = vv["message"].(string)
+				}
+				fmt.Printf("replay attempt %d: reproduced %s at seed %d of the block %d..%d\n%s\n", attempt, class, s, blo, bhi-1, msg)
+				fmt.Printf("VIOLATION property=%s replay=%s\n", prop, path)
+				return 1
+			}
+		}
+		fmt.Printf("replay: the two processes of the digest phases agree over the block %d..%d on this tree\n", blo, bhi-1)
+		return 0
+	}
 	n := 1
 	if ph.Mode == "race" {
 		n = 32
